@@ -17,10 +17,10 @@ def Pc.inStop : Pc → Bool
   | _ => false
 /-- pcs a thread can be at while it executes an activity (script, job body, closure destructor) -/
 def Pc.inBody : Pc → Bool
-  | Pc.idle | Pc.afterEnq _ _ | Pc.stopJoin | Pc.joinBlocked | Pc.stopDrop => true
+  | Pc.idle | Pc.afterEnq _ _ | Pc.waitFlag _ | Pc.stopJoin | Pc.joinBlocked | Pc.stopDrop => true
   | _ => false
 def Pc.bodyPhase : Pc → Bool
-  | Pc.idle | Pc.afterEnq _ _ | Pc.stopJoin | Pc.joinBlocked | Pc.stopDrop | Pc.wFlush => true
+  | Pc.idle | Pc.afterEnq _ _ | Pc.waitFlag _ | Pc.stopJoin | Pc.joinBlocked | Pc.stopDrop | Pc.wFlush => true
   | _ => false
 
 structure Inv (c : Cfg) (s : State) : Prop where
@@ -82,6 +82,10 @@ structure Inv (c : Cfg) (s : State) : Prop where
   s_woken : ∀ t, s.woken t = true → s.pc t = Pc.wCvCheck ∨ s.pc t = Pc.wCvBlocked
   s_cv : ∀ t, (s.pc t = Pc.wCvCheck ∨ s.pc t = Pc.wCvBlocked) → s.woken t = true ∨ t ∈ s.waitq
   n_wake : s.exit = false → s.q ≠ [] → ∃ w, w < c.nw ∧ w ∉ s.waitq
+  -- no stranded job: while somebody sleeps un-notified, every queued job is matched by a worker that will look at the queue
+  a_nd : s.exit = false → s.awake.Nodup
+  a_mem : s.exit = false → ∀ t, t ∈ s.awake ↔ (s.woken t = true ∨ s.pc t = Pc.wLoop)
+  a_len : s.exit = false → s.waitq ≠ [] → s.q.length ≤ s.awake.length
   n_noexit : s.exit = false → ∀ t, (s.pc t).inStop = false ∧ s.pc t ≠ Pc.wExit ∧ (t < c.nw → s.pc t ≠ Pc.done)
                 ∧ s.detached t = false
   -- stop(): joins
@@ -106,7 +110,7 @@ theorem dropKind_bp_hasFut {c : Cfg} {k : Kind} (h : dropKind c k = DropAct.brea
 
 theorem notifyOne_cases (s : State) (k : Nat) :
     (s.waitq = [] ∧ notifyOne s k = s) ∨
-    (∃ w, w ∈ s.waitq ∧ notifyOne s k = { s with waitq := s.waitq.erase w, woken := upd s.woken w true }) := by
+    (∃ w, w ∈ s.waitq ∧ notifyOne s k = { s with waitq := s.waitq.erase w, woken := upd s.woken w true, awake := w :: s.awake }) := by
   unfold notifyOne
   cases hw : s.waitq[k % s.waitq.length]? with
   | none =>
@@ -187,13 +191,16 @@ macro "inv_step" h:ident : tactic => `(tactic| (
   case' f_valued => (have hf_ := ($h).f_valued; inv_simp; try (first | exact hf_ | inv_grind | (have hg0_ := ($h).f_own; have hg1_ := ($h).f_arm; have hg2_ := ($h).f_broken; have hg3_ := ($h).f_brk; have hg4_ := ($h).f_some; have hg5_ := ($h).f_value; have hg6_ := ($h).f_pending; have hg7_ := ($h).b_fut; have hg8_ := ($h).z_fresh; have hg9_ := ($h).c_once; have hg10_ := ($h).t_enq; have hg11_ := ($h).r_job; have hg12_ := ($h).l_rej; have hg13_ := ($h).l_swap; inv_grind) | (have hh_ := $h; cases hh_; inv_grind)))
   case' f_value => (have hf_ := ($h).f_value; inv_simp; try (first | exact hf_ | inv_grind | (have hg0_ := ($h).f_own; have hg1_ := ($h).f_arm; have hg2_ := ($h).f_broken; have hg3_ := ($h).f_brk; have hg4_ := ($h).f_some; have hg5_ := ($h).f_valued; have hg6_ := ($h).f_pending; have hg7_ := ($h).b_fut; have hg8_ := ($h).z_fresh; have hg9_ := ($h).c_once; have hg10_ := ($h).t_enq; have hg11_ := ($h).r_job; have hg12_ := ($h).l_rej; have hg13_ := ($h).l_swap; inv_grind) | (have hh_ := $h; cases hh_; inv_grind)))
   case' f_pending => (have hf_ := ($h).f_pending; inv_simp; try (first | exact hf_ | inv_grind | (have hg0_ := ($h).f_own; have hg1_ := ($h).f_arm; have hg2_ := ($h).f_broken; have hg3_ := ($h).f_brk; have hg4_ := ($h).f_some; have hg5_ := ($h).f_valued; have hg6_ := ($h).f_value; have hg7_ := ($h).b_fut; have hg8_ := ($h).z_fresh; have hg9_ := ($h).c_once; have hg10_ := ($h).t_enq; have hg11_ := ($h).r_job; have hg12_ := ($h).l_rej; have hg13_ := ($h).l_swap; inv_grind) | (have hh_ := $h; cases hh_; inv_grind)))
-  case' s_exit_wq => (have hf_ := ($h).s_exit_wq; inv_simp; try (first | exact hf_ | inv_grind | (have hg0_ := ($h).s_wqnd; have hg1_ := ($h).s_wq_pc; have hg2_ := ($h).s_woken; have hg3_ := ($h).s_cv; have hg4_ := ($h).n_wake; have hg5_ := ($h).n_noexit; have hg6_ := ($h).t_worker; have hg7_ := ($h).wf_nw; inv_grind) | (have hh_ := $h; cases hh_; inv_grind)))
-  case' s_wqnd => (have hf_ := ($h).s_wqnd; inv_simp; try (first | exact hf_ | inv_grind | (have hg0_ := ($h).s_exit_wq; have hg1_ := ($h).s_wq_pc; have hg2_ := ($h).s_woken; have hg3_ := ($h).s_cv; have hg4_ := ($h).n_wake; have hg5_ := ($h).n_noexit; have hg6_ := ($h).t_worker; have hg7_ := ($h).wf_nw; inv_grind) | (have hh_ := $h; cases hh_; inv_grind)))
-  case' s_wq_pc => (have hf_ := ($h).s_wq_pc; inv_simp; try (first | exact hf_ | inv_grind | (have hg0_ := ($h).s_exit_wq; have hg1_ := ($h).s_wqnd; have hg2_ := ($h).s_woken; have hg3_ := ($h).s_cv; have hg4_ := ($h).n_wake; have hg5_ := ($h).n_noexit; have hg6_ := ($h).t_worker; have hg7_ := ($h).wf_nw; inv_grind) | (have hh_ := $h; cases hh_; inv_grind)))
-  case' s_woken => (have hf_ := ($h).s_woken; inv_simp; try (first | exact hf_ | inv_grind | (have hg0_ := ($h).s_exit_wq; have hg1_ := ($h).s_wqnd; have hg2_ := ($h).s_wq_pc; have hg3_ := ($h).s_cv; have hg4_ := ($h).n_wake; have hg5_ := ($h).n_noexit; have hg6_ := ($h).t_worker; have hg7_ := ($h).wf_nw; inv_grind) | (have hh_ := $h; cases hh_; inv_grind)))
-  case' s_cv => (have hf_ := ($h).s_cv; inv_simp; try (first | exact hf_ | inv_grind | (have hg0_ := ($h).s_exit_wq; have hg1_ := ($h).s_wqnd; have hg2_ := ($h).s_wq_pc; have hg3_ := ($h).s_woken; have hg4_ := ($h).n_wake; have hg5_ := ($h).n_noexit; have hg6_ := ($h).t_worker; have hg7_ := ($h).wf_nw; inv_grind) | (have hh_ := $h; cases hh_; inv_grind)))
-  case' n_wake => (have hf_ := ($h).n_wake; inv_simp; try (first | exact hf_ | inv_grind | (have hg0_ := ($h).s_exit_wq; have hg1_ := ($h).s_wqnd; have hg2_ := ($h).s_wq_pc; have hg3_ := ($h).s_woken; have hg4_ := ($h).s_cv; have hg5_ := ($h).n_noexit; have hg6_ := ($h).t_worker; have hg7_ := ($h).wf_nw; inv_grind) | (have hh_ := $h; cases hh_; inv_grind)))
-  case' n_noexit => (have hf_ := ($h).n_noexit; inv_simp; try (first | exact hf_ | inv_grind | (have hg0_ := ($h).s_exit_wq; have hg1_ := ($h).s_wqnd; have hg2_ := ($h).s_wq_pc; have hg3_ := ($h).s_woken; have hg4_ := ($h).s_cv; have hg5_ := ($h).n_wake; have hg6_ := ($h).t_worker; have hg7_ := ($h).wf_nw; inv_grind) | (have hh_ := $h; cases hh_; inv_grind)))
+  case' s_exit_wq => (have hf_ := ($h).s_exit_wq; inv_simp; try (first | exact hf_ | inv_grind | (have hg0_ := ($h).s_wqnd; have hg1_ := ($h).s_wq_pc; have hg2_ := ($h).s_woken; have hg3_ := ($h).s_cv; have hg4_ := ($h).n_wake; have hg5_ := ($h).a_nd; have hg6_ := ($h).a_mem; have hg7_ := ($h).a_len; have hg8_ := ($h).n_noexit; have hg9_ := ($h).t_worker; have hg10_ := ($h).wf_nw; inv_grind) | (have hh_ := $h; cases hh_; inv_grind)))
+  case' s_wqnd => (have hf_ := ($h).s_wqnd; inv_simp; try (first | exact hf_ | inv_grind | (have hg0_ := ($h).s_exit_wq; have hg1_ := ($h).s_wq_pc; have hg2_ := ($h).s_woken; have hg3_ := ($h).s_cv; have hg4_ := ($h).n_wake; have hg5_ := ($h).a_nd; have hg6_ := ($h).a_mem; have hg7_ := ($h).a_len; have hg8_ := ($h).n_noexit; have hg9_ := ($h).t_worker; have hg10_ := ($h).wf_nw; inv_grind) | (have hh_ := $h; cases hh_; inv_grind)))
+  case' s_wq_pc => (have hf_ := ($h).s_wq_pc; inv_simp; try (first | exact hf_ | inv_grind | (have hg0_ := ($h).s_exit_wq; have hg1_ := ($h).s_wqnd; have hg2_ := ($h).s_woken; have hg3_ := ($h).s_cv; have hg4_ := ($h).n_wake; have hg5_ := ($h).a_nd; have hg6_ := ($h).a_mem; have hg7_ := ($h).a_len; have hg8_ := ($h).n_noexit; have hg9_ := ($h).t_worker; have hg10_ := ($h).wf_nw; inv_grind) | (have hh_ := $h; cases hh_; inv_grind)))
+  case' s_woken => (have hf_ := ($h).s_woken; inv_simp; try (first | exact hf_ | inv_grind | (have hg0_ := ($h).s_exit_wq; have hg1_ := ($h).s_wqnd; have hg2_ := ($h).s_wq_pc; have hg3_ := ($h).s_cv; have hg4_ := ($h).n_wake; have hg5_ := ($h).a_nd; have hg6_ := ($h).a_mem; have hg7_ := ($h).a_len; have hg8_ := ($h).n_noexit; have hg9_ := ($h).t_worker; have hg10_ := ($h).wf_nw; inv_grind) | (have hh_ := $h; cases hh_; inv_grind)))
+  case' s_cv => (have hf_ := ($h).s_cv; inv_simp; try (first | exact hf_ | inv_grind | (have hg0_ := ($h).s_exit_wq; have hg1_ := ($h).s_wqnd; have hg2_ := ($h).s_wq_pc; have hg3_ := ($h).s_woken; have hg4_ := ($h).n_wake; have hg5_ := ($h).a_nd; have hg6_ := ($h).a_mem; have hg7_ := ($h).a_len; have hg8_ := ($h).n_noexit; have hg9_ := ($h).t_worker; have hg10_ := ($h).wf_nw; inv_grind) | (have hh_ := $h; cases hh_; inv_grind)))
+  case' n_wake => (have hf_ := ($h).n_wake; inv_simp; try (first | exact hf_ | inv_grind | (have hg0_ := ($h).s_exit_wq; have hg1_ := ($h).s_wqnd; have hg2_ := ($h).s_wq_pc; have hg3_ := ($h).s_woken; have hg4_ := ($h).s_cv; have hg5_ := ($h).a_nd; have hg6_ := ($h).a_mem; have hg7_ := ($h).a_len; have hg8_ := ($h).n_noexit; have hg9_ := ($h).t_worker; have hg10_ := ($h).wf_nw; inv_grind) | (have hh_ := $h; cases hh_; inv_grind)))
+  case' a_nd => (have hf_ := ($h).a_nd; inv_simp; try (first | exact hf_ | inv_grind | (have hg0_ := ($h).s_exit_wq; have hg1_ := ($h).s_wqnd; have hg2_ := ($h).s_wq_pc; have hg3_ := ($h).s_woken; have hg4_ := ($h).s_cv; have hg5_ := ($h).n_wake; have hg6_ := ($h).a_mem; have hg7_ := ($h).a_len; have hg8_ := ($h).n_noexit; have hg9_ := ($h).t_worker; have hg10_ := ($h).wf_nw; inv_grind) | (have hh_ := $h; cases hh_; inv_grind)))
+  case' a_mem => (have hf_ := ($h).a_mem; inv_simp; try (first | exact hf_ | inv_grind | (have hg0_ := ($h).s_exit_wq; have hg1_ := ($h).s_wqnd; have hg2_ := ($h).s_wq_pc; have hg3_ := ($h).s_woken; have hg4_ := ($h).s_cv; have hg5_ := ($h).n_wake; have hg6_ := ($h).a_nd; have hg7_ := ($h).a_len; have hg8_ := ($h).n_noexit; have hg9_ := ($h).t_worker; have hg10_ := ($h).wf_nw; inv_grind) | (have hh_ := $h; cases hh_; inv_grind)))
+  case' a_len => (have hf_ := ($h).a_len; inv_simp; try (first | exact hf_ | inv_grind | (have hg0_ := ($h).s_exit_wq; have hg1_ := ($h).s_wqnd; have hg2_ := ($h).s_wq_pc; have hg3_ := ($h).s_woken; have hg4_ := ($h).s_cv; have hg5_ := ($h).n_wake; have hg6_ := ($h).a_nd; have hg7_ := ($h).a_mem; have hg8_ := ($h).n_noexit; have hg9_ := ($h).t_worker; have hg10_ := ($h).wf_nw; inv_grind) | (have hh_ := $h; cases hh_; inv_grind)))
+  case' n_noexit => (have hf_ := ($h).n_noexit; inv_simp; try (first | exact hf_ | inv_grind | (have hg0_ := ($h).s_exit_wq; have hg1_ := ($h).s_wqnd; have hg2_ := ($h).s_wq_pc; have hg3_ := ($h).s_woken; have hg4_ := ($h).s_cv; have hg5_ := ($h).n_wake; have hg6_ := ($h).a_nd; have hg7_ := ($h).a_mem; have hg8_ := ($h).a_len; have hg9_ := ($h).t_worker; have hg10_ := ($h).wf_nw; inv_grind) | (have hh_ := $h; cases hh_; inv_grind)))
   case' s_tmp_pc => (have hf_ := ($h).s_tmp_pc; inv_simp; try (first | exact hf_ | inv_grind | (have hg0_ := ($h).n_noexit; have hg1_ := ($h).s_tmp_uniq; have hg2_ := ($h).s_thr_tmp; have hg3_ := ($h).s_jb_head; have hg4_ := ($h).s_tmp_w; have hg5_ := ($h).s_nostuck; have hg6_ := ($h).j_all; have hg7_ := ($h).j_thr; have hg8_ := ($h).j_thr0; have hg9_ := ($h).j_thrw; have hg10_ := ($h).z_det; have hg11_ := ($h).z_cur; have hg12_ := ($h).z_touch; have hg13_ := ($h).d_exit; have hg14_ := ($h).t_worker; have hg15_ := ($h).t_ret; have hg16_ := ($h).t_script; have hg17_ := ($h).wf_nt; inv_grind) | (have hh_ := $h; cases hh_; inv_grind)))
   case' s_tmp_uniq => (have hf_ := ($h).s_tmp_uniq; inv_simp; try (first | exact hf_ | inv_grind | (have hg0_ := ($h).n_noexit; have hg1_ := ($h).s_tmp_pc; have hg2_ := ($h).s_thr_tmp; have hg3_ := ($h).s_jb_head; have hg4_ := ($h).s_tmp_w; have hg5_ := ($h).s_nostuck; have hg6_ := ($h).j_all; have hg7_ := ($h).j_thr; have hg8_ := ($h).j_thr0; have hg9_ := ($h).j_thrw; have hg10_ := ($h).z_det; have hg11_ := ($h).z_cur; have hg12_ := ($h).z_touch; have hg13_ := ($h).d_exit; have hg14_ := ($h).t_worker; have hg15_ := ($h).t_ret; have hg16_ := ($h).t_script; have hg17_ := ($h).wf_nt; inv_grind) | (have hh_ := $h; cases hh_; inv_grind)))
   case' s_thr_tmp => (have hf_ := ($h).s_thr_tmp; inv_simp; try (first | exact hf_ | inv_grind | (have hg0_ := ($h).n_noexit; have hg1_ := ($h).s_tmp_pc; have hg2_ := ($h).s_tmp_uniq; have hg3_ := ($h).s_jb_head; have hg4_ := ($h).s_tmp_w; have hg5_ := ($h).s_nostuck; have hg6_ := ($h).j_all; have hg7_ := ($h).j_thr; have hg8_ := ($h).j_thr0; have hg9_ := ($h).j_thrw; have hg10_ := ($h).z_det; have hg11_ := ($h).z_cur; have hg12_ := ($h).z_touch; have hg13_ := ($h).d_exit; have hg14_ := ($h).t_worker; have hg15_ := ($h).t_ret; have hg16_ := ($h).t_script; have hg17_ := ($h).wf_nt; inv_grind) | (have hh_ := $h; cases hh_; inv_grind)))
